@@ -500,7 +500,58 @@ def extra_checks(ctx):
             ctx.count(k, int(v))
 
 
+# ---- budgets far beyond convergence, tolerance 0, every floating-point dtype: the result stays finite and is the solution ----
+def gen_past(rng, tier):
+    out = []
+    for dt in ('complex64', 'complex128', 'float32', 'float64'):
+        for maxit in (4, 40, 200):
+            for kind in ('scaled_identity', 'spd'):
+                n = rng.randint(2, 5)
+                A = [[rng.randint(-2, 2) for _ in range(n)] for _ in range(n)]
+                out.append({'dtype': dt, 'maxit': maxit, 'kind': kind, 'n': n, 'A': A, 'factor': rng.choice([1.5, 0.25, 3.0]), 'seed': rng.randrange(10 ** 6)})
+    return out if tier != 'quick' else out
+
+
+def impl_past(c):
+    from mrpro.algorithms.optimizers import cg
+    from mrpro.operators import EinsumOp, IdentityOp
+    dt = getattr(torch, c['dtype'])
+    g = torch.Generator().manual_seed(c['seed'])
+    n = c['n']
+    b = torch.randn(n, generator=g, dtype=torch.float64).to(dt)
+    if dt.is_complex:
+        b = b + 1j * torch.randn(n, generator=g, dtype=torch.float64).to(dt)
+    if c['kind'] == 'scaled_identity':
+        H = c['factor'] * IdentityOp()
+        Hd = c['factor'] * np.eye(n)
+    else:
+        A = torch.tensor(c['A'], dtype=torch.float64)
+        M = A.T @ A + torch.eye(n, dtype=torch.float64)
+        H = EinsumOp(M.to(dt), '... i j, ... j -> ... i')
+        Hd = M.numpy()
+    trace = []
+    x = cg(H, b, max_iterations=c['maxit'], tolerance=0.0, callback=lambda s: trace.append(float(torch.linalg.vector_norm(s['residual']))))
+    xs = np.linalg.solve(Hd.astype(np.complex128), b.to(torch.complex128).numpy())
+    xv = x.to(torch.complex128).numpy()
+    return {'finite': bool(np.isfinite(xv).all()), 'err': float(np.abs(xv - xs).max() / max(1.0, np.abs(xs).max())) if np.isfinite(xv).all() else None,
+            'n_callbacks': len(trace), 'residual_norms': trace[:8]}
+
+
+def oracle_past(c, o):
+    if isinstance(o, dict) and 'raises' in o:
+        return f'cg raised {o["raises"]}: {o.get("msg")}'
+    if not o['finite']:
+        return (f'HPD system ({c["kind"]}, n = {c["n"]}, {c["dtype"]}), tolerance 0, max_iterations = {c["maxit"]} (far beyond convergence): the result is not '
+                f'finite; residual norms reported to the callback: {o["residual_norms"]}')
+    eps = 1e-4 if c['dtype'] in ('complex64', 'float32') else 1e-10
+    if o['err'] > eps:
+        return f'after {c["maxit"]} >= n iterations the solution is not reached to working precision ({c["dtype"]}): relative error {o["err"]:.3g}'
+    return None
+
+
 FAMILIES = [
+    Family('past_convergence', gen_past, impl_past, None, '', None, oracle_past, descr=lambda c: {'dtype': c['dtype'], 'maxit': c['maxit'], 'kind': c['kind']},
+           theorem='C06_never_diverges, C06_fixed_point_loop (exact arithmetic); floating-point under-/overflow is outside the model: implementation-level oracle'),
     Family('cg_systems', gen_systems, impl_cg, coq_cg, PREAMBLE, compare_cg, oracle_cg, nontrivial=_nontrivial, descr=descr_cg, shard=12,
            theorem='C06_residual, C06_finite, C06_fixed_point_*, C06_conjugate, C06_orthogonal, C06_krylov, C06_optimal, C06_monotone, C06_within_n'),
     Family('cg_degenerate', gen_degenerate, impl_cg, coq_cg, PREAMBLE, compare_cg, oracle_cg, nontrivial=_nontrivial, descr=descr_cg, shard=12,
